@@ -128,8 +128,16 @@ def analyse(W: int, mf: int, res: Dict[str, Any], out: Outcome, want: str) -> Di
         if res["nworkers"] != W:
             out.add("C17.b", f"number of slots changed: {res['nworkers']} != {W}")
         last_tick = res["ticks_used"]
+        # the manager may stop replacing workers only because it is shutting down (a TERM/INT was delivered) or because
+        # its failure budget is exhausted (max_fails >= 1 unexpected exits were seen); any other end is a give-up
+        shutdown_sig = any(e[0] == "sig" and e[1] in ("TERM", "INT") for e in tr)
+        all_dies = sum(1 for e in tr if e[0] == "die")
+        justified = shutdown_sig or res["status"] != "returned" or (mf >= 1 and all_dies >= mf)
         for (t, slot, pid) in deaths:
             if end_tick is not None and end_tick <= t + 2:
+                if not justified and res.get("ret") is not None:
+                    out.add("C17.c", f"slot {slot} died in tick {t} (pid {pid}); the manager stopped with status {res['ret']!r} in tick {end_tick} instead of "
+                                     f"replacing it although it was not shutting down and no failure budget is exhausted (max_fails={mf}, {all_dies} exits seen)")
                 continue    # shutting down / budget exhausted
             if last_tick < t + 2:
                 continue    # history ended before two further ticks were observed
@@ -217,7 +225,7 @@ def histories(max_ticks: int = 40) -> Any:
         })
 
     return st.integers(1, 3).flatmap(lambda W: st.fixed_dictionaries({
-        "W": st.just(W), "mf": st.sampled_from(list(MF) + [5, 8]),
+        "W": st.just(W), "mf": st.sampled_from(list(MF) + [5, 8, -2, -7]),
         "h": st.lists(tick(W), min_size=3, max_size=max_ticks),
         "sd": st.lists(st.integers(0, 12), max_size=3, unique=True).map(sorted),
         "slow": st.one_of(st.just([]), st.lists(st.tuples(st.integers(0, 8), st.sampled_from([2.0, 8.0, 30.0])).map(list), max_size=4, unique_by=lambda x: x[0])),
